@@ -1026,3 +1026,180 @@ def rejecting_differential(kwargs, n, seed=0):
     elif bool(obs["outcome"].get("rejected")) != bool(st["g.rejected"]) or obs["tracked"] != st["tracked.len"]:
       bad.append({"schedule": k, "why": "model rejected=%s tracked=%s, real %s" % (st["g.rejected"], st["tracked.len"], obs)})
   return {"schedules": n, "visible_operations": ops, "disagreements": bad}
+
+
+# ---- fabric_delivery scenario (C06 / C08 under every interleaving) -----------------------------------------------------------------------
+class RealFabricDelivery:
+  def __init__(self, sc, sysm):
+    import collections
+    import queue as _queue
+    from vf import core
+    from vf.e2.scenarios import FABRIC_EVENTS
+    core.fresh_miros()
+    import miros.activeobject as ao
+    import miros.event as ev
+    vis, _, _ = R.visibility_from(sysm)
+    self.d = d = R.Director(vis)
+    self.info = info = sc.info
+
+    def pq(name):
+      class PQ(_queue.PriorityQueue):
+        def put(self, item, block=True, timeout=None):
+          d.before(name, "put")
+          return _queue.PriorityQueue.put(self, item, block, timeout)
+
+        def get(self, block=True, timeout=None):
+          d.before(name, "get")
+          if d.free:
+            return _queue.PriorityQueue.get(self, block, timeout)
+          try:
+            return _queue.PriorityQueue.get(self, False)
+          except _queue.Empty:
+            raise R.Mismatch("queue %s: the schedule grants a get that would block" % name)
+
+        def task_done(self):
+          d.before(name, "task_done")
+          return _queue.PriorityQueue.task_done(self)
+      return PQ()
+
+    class ListProxy(list):
+      def append(self, x):
+        d.before("registries", "append")
+        return list.append(self, x)
+
+      def __iter__(self):
+        i = 0
+        while True:
+          d.before("registries", "iter_next")
+          if i >= list.__len__(self):
+            return
+          yield list.__getitem__(self, i)
+          i += 1
+
+    def registry(name):
+      class KeysView:
+        def __init__(self, dd):
+          self.dd = dd
+
+        def __contains__(self, k):
+          d.before(name, "contains")
+          return dict.__contains__(self.dd, k)
+
+      class Reg(dict):
+        def __contains__(self, k):
+          d.before(name, "contains")
+          return dict.__contains__(self, k)
+
+        def __getitem__(self, k):
+          d.before(name, "getitem")
+          return dict.__getitem__(self, k)
+
+        def __setitem__(self, k, v):
+          if isinstance(v, list) and not isinstance(v, ListProxy):
+            d.before("registries", "new")          # the list literal the code has just built
+            v = ListProxy(v)
+          d.before(name, "setitem")
+          return dict.__setitem__(self, k, v)
+
+        def keys(self):
+          return KeysView(self)
+      return Reg()
+    self.fab = fab = ao.ActiveFabricSource()
+    fab.fifo_fabric_queue = pq("fifo_queue")
+    fab.lifo_fabric_queue = pq("lifo_queue")
+    fab.fifo_subscriptions = registry("fifo_subscriptions")
+    fab.lifo_subscriptions = registry("lifo_subscriptions")
+    self.run = threading.Event()
+    self.run.set()
+    self.queues = [R.make_deque(d, "q%d" % i, 10) for i in range(2)]
+    self.events = [ev.Event(signal=sg, payload=i) for i, (sg, _p) in enumerate(FABRIC_EVENTS)]
+    self.sub_ev = {"A": ev.Event(signal="A"), "B": ev.Event(signal="B")}
+    self.prios = [p for (_sg, p) in FABRIC_EVENTS]
+    self.errors = {}
+    self.bodies = {0: self.caller_body()}
+    for k, kind in enumerate(info["kinds"]):
+      self.bodies[1 + k] = self.delivery_body(kind)
+
+  def caller_body(self):
+    def body():
+      try:
+        for stp in self.info["steps"]:
+          if stp[0] == "sub":
+            self.fab.subscribe(self.queues[stp[1]], self.sub_ev[stp[2]], stp[3])
+          else:
+            self.fab.publish(self.events[stp[1]], priority=self.prios[stp[1]])
+      except BaseException as ex:     # noqa
+        self.errors[0] = "%s: %s" % (type(ex).__name__, ex)
+    return body
+
+  def delivery_body(self, kind):
+    def body():
+      try:
+        if kind == "fifo":
+          self.fab.thread_runner_fifo(self.run, self.fab.fifo_fabric_queue, self.fab.fifo_subscriptions)
+        else:
+          self.fab.thread_runner_lifo(self.run, self.fab.lifo_fabric_queue, self.fab.lifo_subscriptions)
+      except R.Mismatch:
+        pass
+      except BaseException as ex:     # noqa
+        self.errors[kind] = "%s: %s" % (type(ex).__name__, ex)
+    return body
+
+  def observe(self):
+    import collections
+    return {"q0": [e.payload for e in collections.deque.__iter__(self.queues[0])], "q1": [e.payload for e in collections.deque.__iter__(self.queues[1])], "errors": {str(k): v for k, v in self.errors.items()},
+            "caller_finished": 0 in self.d.finished}
+
+  def cleanup(self, threads):
+    import miros.activeobject as ao
+    self.run.clear()
+    self.d.release_all()
+    for q in (self.fab.fifo_fabric_queue, self.fab.lifo_fabric_queue):
+      q.put(ao.FabricEvent(ao.HsmEvent(signal="WAKE_UP"), priority=1))
+    for t in threads.values():
+      t.join(timeout=0.3)
+
+
+def fabric_delivery_replay(sc, sysm, res, states, infos, loop):
+  real = RealFabricDelivery(sc, sysm)
+  threads = {}
+  try:
+    ok, detail, threads = R.run_threads(real.d, real.bodies, triples(infos))
+    time.sleep(0.05)
+    obs = real.observe()
+  finally:
+    real.cleanup(threads)
+  return {"matched": ok, "detail": detail, "real": obs}
+
+
+def fabric_delivery_differential(kwargs, n, seed=0):
+  from vf.e2.check import build
+  rnd = random.Random(seed)
+  bad = []
+  ops = 0
+  for k in range(n):
+    sc, sysm = build("fabric_delivery", kwargs)
+    st = sysm.initial()
+    infos = []
+    for _ in range(160):
+      en = sysm.enabled_concrete(st)
+      if not en:
+        break
+      st, info = sysm.step_concrete(st, rnd.choice(en))
+      infos.append(info)
+    real = RealFabricDelivery(sc, sysm)
+    threads = {}
+    try:
+      ok, detail, threads = R.run_threads(real.d, real.bodies, triples(infos))
+      time.sleep(0.03)
+      obs = real.observe()
+    finally:
+      real.cleanup(threads)
+    ops += len(triples(infos))
+    idx = {rid: i for i, rid in enumerate(sc.info["events"])}
+    model = {q: [idx.get(st["%s.c%d" % (q, i)], "?") for i in range(st["%s.len" % q])] for q in ("q0", "q1")}
+    if not ok:
+      bad.append({"schedule": k, "why": detail})
+    elif model["q0"] != obs["q0"] or model["q1"] != obs["q1"]:
+      bad.append({"schedule": k, "why": "model %s, real %s" % (model, obs)})
+  return {"schedules": n, "visible_operations": ops, "disagreements": bad}
